@@ -32,7 +32,7 @@ def run(ctx):
     reps = 4 if ctx.quick() else 16
     # every compression type where the scenario compresses or decompresses blocks on several threads (each codec has its own
     # state handling); the sorter's temporary files have a fixed compression, so those scenarios take fewer types
-    for sc in ("writers", "sorters", "mixed", "readers", "single", "abandon", "sortedge", "manyjobs"):
+    for sc in ("writers", "sorters", "mixed", "readers", "single", "abandon", "sortedge", "manyjobs", "failmerge"):
         if ctx.quick():
             comps = gen.COMPS if sc in ("writers", "readers") else ["zlib", "lz4hc", "zstd"] if sc in ("mixed", "single") else ["none"]
         else:
